@@ -96,6 +96,7 @@ type Decoded struct {
 	OffUDP     int
 	OffTCP     int
 	OffPayload []int // acceptable start offsets of Frame.Payload()
+	End        int   // end of the decoded packet inside the frame: IPv4 total length (bytes after it are link layer padding), else len(frame)
 	Proto      int   // IP protocol / next header, -1 if none
 }
 
@@ -155,7 +156,7 @@ func UDPClass(src, dst uint16) int {
 
 // Decode applies Ethernet II / 802.3 framing, the EtherType table, the IP protocol table and the UDP port table.
 func Decode(f []byte) Decoded {
-	d := Decoded{Proto: -1}
+	d := Decoded{Proto: -1, End: len(f)}
 	if len(f) < 14 {
 		d.Err, d.ErrLayer = true, "ether"
 		return d
@@ -201,7 +202,9 @@ func Decode(f []byte) Decoded {
 		d.SrcIP = netip.AddrFrom4([4]byte(p[12:16]))
 		d.DstIP = netip.AddrFrom4([4]byte(p[16:20]))
 		d.Proto = int(p[9])
-		return decodeL4(f, hl+ihl, d)
+		// RFC 791: the datagram ends at the total length; what follows is link layer padding and not part of any upper layer
+		d.End = hl + tot
+		return decodeL4(f[:hl+tot], hl+ihl, d)
 	case 0x86dd:
 		d.PayloadID = PIP6
 		if len(p) < 40 {
